@@ -77,7 +77,8 @@ def Slot.dead : Slot := { live := false, vptr := none, obj := none }
 def Slot.emptyW : Slot := { live := true, vptr := none, obj := none }
 
 /-- Ledger events: value construction, copy construction, move construction, destruction,
-    r-value connect, l-value connect of a wrapped sender. -/
+    r-value connect, l-value connect of a wrapped sender, a copy/move construction from `src`
+    that threw (no object comes into being). -/
 inductive LEv where
   | C (id : Nat) (val : Int)
   | K (id src : Nat)
@@ -85,6 +86,7 @@ inductive LEv where
   | D (id : Nat)
   | X (id : Nat)
   | L (id : Nat)
+  | F (src : Nat)
   deriving DecidableEq, Repr
 
 inductive Res where
@@ -115,12 +117,19 @@ inductive Op where
   | call (i : Nat) (x : Int)
   | run (i : Nat)
   | runc (i : Nat)
+  /-- arm the payloads: the `k`-th copy/move construction of a payload from now on throws
+      `payload_error` (0 = disarm) -/
+  | arm (k : Nat)
   deriving DecidableEq, Repr
 
 structure Cfg where
   n : Nat
   kind : Nat → Kind
   sbo : Bool := false
+  /-- `true` = `basic_function::assign` / `function_base::op_assign` as in the pinned tree (not
+      exception safe, see `notes/C18.md`); `false` = with the repair `fix: basic_function …`,
+      i.e. the code the framework's pika branch contains. -/
+  pinned : Bool := false
 
 structure St where
   slot : Nat → Slot
@@ -131,10 +140,12 @@ structure St where
   dtor : Nat → Nat
   /-- ghost: the slot that owns a live object -/
   owner : Nat → Option Nat
+  /-- countdown to the payload construction that throws (0 = none) -/
+  arm : Nat
 
 def init : St :=
   { slot := fun _ => Slot.dead, next := 0, ctor := fun _ => 0, dtor := fun _ => 0,
-    owner := fun _ => none }
+    owner := fun _ => none, arm := 0 }
 
 structure Out where
   st : St
@@ -159,6 +170,9 @@ def St.put (s : St) (i : Nat) (sl : Slot) : St := { s with slot := upd s.slot i 
 /-- the object is abandoned without its destructor running (only in the opt-in embedded-storage
     configuration of the sender wrappers) -/
 def St.leak (s : St) (id : Nat) : St := { s with owner := upd s.owner id none }
+
+/-- a payload copy/move construction was attempted (successfully or not) -/
+def St.tick (s : St) : St := { s with arm := s.arm - 1 }
 
 def St.own (s : St) (id i : Nat) : St := { s with owner := upd s.owner id (some i) }
 
@@ -204,22 +218,34 @@ def execStore (c : Cfg) (s : St) (i : Nat) (ty : PTy) (v : Int) (cp fresh : Bool
   if i < c.n ∧ sl.live = !fresh ∧ admits k ty cp = true then
     let a := s.next
     let b := s.next + 1
+    if k.isFn ∧ sl.vptr = some ty ∧ sl.obj = none then { st := s, res := .ub, evs := [] } else
+    if s.arm = 1 then
+      -- the constructor of the stored object throws; the previous target is already destroyed
+      let evs := [.C a v] ++ dEv sl.obj ++ [.F a, .D a]
+      let gone : Slot := if fresh then sl else Slot.emptyW
+      if k.isFn ∧ c.pinned = true ∧ fresh = false then
+        -- pinned tree: `object` keeps pointing at the destroyed target; on the other-type
+        -- path `vptr` already is the new type's vtable
+        { st := ((((s.born 1).dieO sl.obj).put i { sl with vptr := some ty }).die a).tick, res := .perr v, evs := evs }
+      else
+        { st := ((((s.born 1).dieO sl.obj).put i gone).die a).tick, res := .perr v, evs := evs }
+    else
     if k.isFn then
       if sl.vptr = some ty then
         -- same target type: the object storage is reused
         match sl.obj with
         | some o =>
           let nb : Obj := { id := b, ty := ty, val := v, heap := o.heap, home := i }
-          { st := ((((s.born 2).die o.id).put i { sl with live := true, obj := some nb }).own b i).die a,
+          { st := (((((s.born 2).die o.id).put i { sl with live := true, obj := some nb }).own b i).die a).tick,
             res := .ok, evs := [.C a v, .D o.id, inEv cp b a, .D a] }
         | none => { st := s, res := .ub, evs := [] }
       else
         let nb : Obj := { id := b, ty := ty, val := v, heap := ty.big, home := i }
-        { st := ((((s.born 2).dieO sl.obj).put i { live := true, vptr := some ty, obj := some nb }).own b i).die a,
+        { st := (((((s.born 2).dieO sl.obj).put i { live := true, vptr := some ty, obj := some nb }).own b i).die a).tick,
           res := .ok, evs := [.C a v] ++ dEv sl.obj ++ [inEv cp b a, .D a] }
     else
       let nb : Obj := { id := b, ty := ty, val := v, heap := onHeap c k ty, home := i }
-      { st := ((((s.born 2).dieO sl.obj).put i { live := true, vptr := none, obj := some nb }).own b i).die a,
+      { st := (((((s.born 2).dieO sl.obj).put i { live := true, vptr := none, obj := some nb }).own b i).die a).tick,
         res := .ok, evs := [.C a v] ++ dEv sl.obj ++ [inEv cp b a, .D a] }
   else inval s
 
@@ -255,16 +281,31 @@ def exec (c : Cfg) (s : St) : Op → Out
             match sj.obj with
             | some oj =>
               -- reuse object storage: destroy, copy-construct in place
+              if s.arm = 1 then
+                if c.pinned then
+                  { st := (s.die oi.id).tick, res := .perr oj.val, evs := [.D oi.id, .F oj.id] }
+                else
+                  { st := ((s.die oi.id).put i { si with vptr := none, obj := none }).tick,
+                    res := .perr oj.val, evs := [.D oi.id, .F oj.id] }
+              else
               let nb : Obj := { id := s.next, ty := oj.ty, val := oj.val, heap := oi.heap, home := i }
-              { st := ((((s.born 1).die oi.id).put i { si with obj := some nb }).own s.next i),
+              { st := ((((s.born 1).die oi.id).put i { si with obj := some nb }).own s.next i).tick,
                 res := .ok, evs := [.D oi.id, .K s.next oj.id] }
             | none => { st := s, res := .ub, evs := [] }
           | none => { st := s, res := .ok, evs := [] }
         else
           match sj.obj with
           | some oj =>
+            if s.arm = 1 then
+              if c.pinned then
+                { st := ((s.dieO si.obj).put i { si with vptr := sj.vptr }).tick,
+                  res := .perr oj.val, evs := dEv si.obj ++ [.F oj.id] }
+              else
+                { st := ((s.dieO si.obj).put i { si with vptr := none, obj := none }).tick,
+                  res := .perr oj.val, evs := dEv si.obj ++ [.F oj.id] }
+            else
             let nb : Obj := { id := s.next, ty := oj.ty, val := oj.val, heap := oj.ty.big, home := i }
-            { st := ((((s.born 1).dieO si.obj).put i { si with vptr := sj.vptr, obj := some nb }).own s.next i),
+            { st := ((((s.born 1).dieO si.obj).put i { si with vptr := sj.vptr, obj := some nb }).own s.next i).tick,
               res := .ok, evs := dEv si.obj ++ [.K s.next oj.id] }
           | none =>
             { st := ((s.dieO si.obj).put i { si with vptr := sj.vptr, obj := none }),
@@ -274,8 +315,13 @@ def exec (c : Cfg) (s : St) : Op → Out
         if i = j then { st := s, res := .ok, evs := [] } else
         match sj.obj with
         | some oj =>
+          if s.arm = 1 then
+            -- `release(); heap_storage = other.get().clone()` : clone throws, the wrapper stays empty
+            { st := ((s.dieO si.obj).put i { si with obj := none }).tick,
+              res := .perr oj.val, evs := dEv si.obj ++ [.F oj.id] }
+          else
           let nb : Obj := { id := s.next, ty := oj.ty, val := oj.val, heap := oj.heap, home := i }
-          { st := ((((s.born 1).dieO si.obj).put i { si with obj := some nb }).own s.next i),
+          { st := ((((s.born 1).dieO si.obj).put i { si with obj := some nb }).own s.next i).tick,
             res := .ok, evs := dEv si.obj ++ [.K s.next oj.id] }
         | none =>
           { st := ((s.dieO si.obj).put i { si with obj := none }), res := .ok, evs := dEv si.obj }
@@ -312,9 +358,13 @@ def exec (c : Cfg) (s : St) : Op → Out
         (c.kind i).copyable = true then
       match sj.obj with
       | some oj =>
+        if s.arm = 1 then
+          -- the wrapper's constructor throws: no wrapper comes into being
+          { st := s.tick, res := .perr oj.val, evs := [.F oj.id] }
+        else
         let nb : Obj := { id := s.next, ty := oj.ty, val := oj.val,
                           heap := if (c.kind i).isFn then oj.ty.big else oj.heap, home := i }
-        { st := (((s.born 1).put i { live := true, vptr := sj.vptr, obj := some nb }).own s.next i),
+        { st := (((s.born 1).put i { live := true, vptr := sj.vptr, obj := some nb }).own s.next i).tick,
           res := .ok, evs := [.K s.next oj.id] }
       | none => { st := s.put i { live := true, vptr := sj.vptr, obj := none }, res := .ok, evs := [] }
     else inval s
@@ -387,6 +437,8 @@ def exec (c : Cfg) (s : St) : Op → Out
       | some o => { st := s, res := complRes o, evs := [.L o.id] }
     else inval s
 
+  | .arm k => { st := { s with arm := k }, res := .ok, evs := [] }
+
 /-- Run a history; collects the outputs. -/
 def runOps (c : Cfg) : St → List Op → St × List (Res × List LEv)
   | s, [] => (s, [])
@@ -422,8 +474,6 @@ def absSlot (sl : Slot) : ASlot :=
     | none => .empty
   else .dead
 
-def absSt (s : St) : Nat → ASlot := fun i => absSlot (s.slot i)
-
 /-- the result with the address-stability flag of a call erased -/
 def Res.core : Res → Res
   | .ret v _ => .ret v false
@@ -437,60 +487,86 @@ def aCompl (ty : PTy) (v : Int) : Res :=
   else if ty.mode = 2 then .stopped
   else .perr v
 
-def specExec (c : Cfg) (a : Nat → ASlot) : Op → (Nat → ASlot) × Res
-  | .new i => if i < c.n ∧ (a i).live = false then (upd a i .empty, .ok) else (a, .invalid)
+/-- abstract state: the optional payloads and the arming countdown of the payloads -/
+structure ASt where
+  slots : Nat → ASlot
+  arm : Nat
+
+def absSt (s : St) : ASt := { slots := fun i => absSlot (s.slot i), arm := s.arm }
+
+def ASt.set (a : ASt) (i : Nat) (v : ASlot) : ASt := { a with slots := upd a.slots i v }
+
+/-- one payload copy/move construction happens (value semantics: storing or copying a payload
+    constructs exactly one object); if the payloads are armed for it, it throws `payload_error`
+    carrying the source's value and the target is left empty (`onThrow`) -/
+def ASt.construct (a : ASt) (i : Nat) (ty : PTy) (v : Int) (onThrow : ASlot) : ASt × Res :=
+  ({ slots := upd a.slots i (if a.arm = 1 then onThrow else .full ty v), arm := a.arm - 1 },
+   if a.arm = 1 then .perr v else .ok)
+
+def specExec (c : Cfg) (a : ASt) : Op → ASt × Res
+  | .new i => if i < c.n ∧ (a.slots i).live = false then (a.set i .empty, .ok) else (a, .invalid)
   | .newp i ty v cp =>
-    if i < c.n ∧ (a i).live = false ∧ admits (c.kind i) ty cp = true then (upd a i (.full ty v), .ok)
+    if i < c.n ∧ (a.slots i).live = false ∧ admits (c.kind i) ty cp = true then a.construct i ty v .dead
     else (a, .invalid)
   | .set i ty v cp =>
-    if i < c.n ∧ (a i).live = true ∧ admits (c.kind i) ty cp = true then (upd a i (.full ty v), .ok)
+    if i < c.n ∧ (a.slots i).live = true ∧ admits (c.kind i) ty cp = true then a.construct i ty v .empty
     else (a, .invalid)
-  | .del i => if i < c.n ∧ (a i).live = true then (upd a i .dead, .ok) else (a, .invalid)
-  | .reset i => if i < c.n ∧ (a i).live = true then (upd a i .empty, .ok) else (a, .invalid)
+  | .del i => if i < c.n ∧ (a.slots i).live = true then (a.set i .dead, .ok) else (a, .invalid)
+  | .reset i => if i < c.n ∧ (a.slots i).live = true then (a.set i .empty, .ok) else (a, .invalid)
   | .copy i j =>
-    if i < c.n ∧ j < c.n ∧ (a i).live = true ∧ (a j).live = true ∧ c.kind i = c.kind j ∧
-        (c.kind i).copyable = true then (upd a i (a j), .ok)
+    if i < c.n ∧ j < c.n ∧ (a.slots i).live = true ∧ (a.slots j).live = true ∧ c.kind i = c.kind j ∧
+        (c.kind i).copyable = true then
+      if i = j then (a, .ok) else
+      match a.slots j with
+      | .full ty v => a.construct i ty v .empty
+      | x => (a.set i x, .ok)
     else (a, .invalid)
   | .move i j =>
-    if i < c.n ∧ j < c.n ∧ (a i).live = true ∧ (a j).live = true ∧
+    if i < c.n ∧ j < c.n ∧ (a.slots i).live = true ∧ (a.slots j).live = true ∧
         movesFrom (c.kind i) (c.kind j) = true then
-      if i = j then (a, .ok) else (upd (upd a j .empty) i (a j), .ok)
+      if i = j then (a, .ok) else ((a.set j .empty).set i (a.slots j), .ok)
     else (a, .invalid)
   | .cctor i j =>
-    if i < c.n ∧ j < c.n ∧ (a i).live = false ∧ (a j).live = true ∧ c.kind i = c.kind j ∧
-        (c.kind i).copyable = true then (upd a i (a j), .ok)
+    if i < c.n ∧ j < c.n ∧ (a.slots i).live = false ∧ (a.slots j).live = true ∧ c.kind i = c.kind j ∧
+        (c.kind i).copyable = true then
+      match a.slots j with
+      | .full ty v => a.construct i ty v .dead
+      | x => (a.set i x, .ok)
     else (a, .invalid)
   | .mctor i j =>
-    if i < c.n ∧ j < c.n ∧ (a i).live = false ∧ (a j).live = true ∧
-        movesFrom (c.kind i) (c.kind j) = true then (upd (upd a j .empty) i (a j), .ok)
+    if i < c.n ∧ j < c.n ∧ (a.slots i).live = false ∧ (a.slots j).live = true ∧
+        movesFrom (c.kind i) (c.kind j) = true then ((a.set j .empty).set i (a.slots j), .ok)
     else (a, .invalid)
   | .swap i j =>
-    if i < c.n ∧ j < c.n ∧ (a i).live = true ∧ (a j).live = true ∧ c.kind i = c.kind j ∧
-        (c.kind i).isFn = true then (upd (upd a j (a i)) i (a j), .ok)
+    if i < c.n ∧ j < c.n ∧ (a.slots i).live = true ∧ (a.slots j).live = true ∧ c.kind i = c.kind j ∧
+        (c.kind i).isFn = true then ((a.set j (a.slots i)).set i (a.slots j), .ok)
     else (a, .invalid)
   | .empty i =>
-    if i < c.n ∧ (a i).live = true then (a, .bool (decide (a i = .empty))) else (a, .invalid)
+    if i < c.n ∧ (a.slots i).live = true then (a, .bool (decide (a.slots i = .empty))) else (a, .invalid)
   | .call i x =>
-    if i < c.n ∧ (a i).live = true ∧ (c.kind i).isFn = true then
-      match a i with
+    if i < c.n ∧ (a.slots i).live = true ∧ (c.kind i).isFn = true then
+      match a.slots i with
       | .full ty v => (a, aCall ty v x)
       | _ => (a, .badcall)
     else (a, .invalid)
   | .run i =>
-    if i < c.n ∧ (a i).live = true ∧ (c.kind i).isFn = false then
-      match a i with
-      | .full ty v => (upd a i .empty, aCompl ty v)
+    if i < c.n ∧ (a.slots i).live = true ∧ (c.kind i).isFn = false then
+      match a.slots i with
+      | .full ty v => (a.set i .empty, aCompl ty v)
       | _ => (a, .badcall)
     else (a, .invalid)
   | .runc i =>
-    if i < c.n ∧ (a i).live = true ∧ c.kind i = .as then
-      match a i with
+    if i < c.n ∧ (a.slots i).live = true ∧ c.kind i = .as then
+      match a.slots i with
       | .full ty v => (a, aCompl ty v)
       | _ => (a, .badcall)
     else (a, .invalid)
+  | .arm k => ({ a with arm := k }, .ok)
 
-def specRun (c : Cfg) : (Nat → ASlot) → List Op → List Res
+def specRun (c : Cfg) : ASt → List Op → List Res
   | _, [] => []
   | a, op :: ops => let r := specExec c a op; r.2 :: specRun c r.1 ops
+
+def ASt.init : ASt := { slots := fun _ => .dead, arm := 0 }
 
 end PikaVerif.Erase
